@@ -26,12 +26,13 @@ Inners == {VObj(<<"u">>, <<VInt>>), VObj(<<"u">>, <<VStr("sA")>>), VObj(<<"u", "
 MkObj(ps) == VObj([i \in DOMAIN ps |-> ps[i][1]], [i \in DOMAIN ps |-> ps[i][2]])
 ObjsFull == {MkObj(a \o b \o c) : a \in Opt("x", {VInt, VStr("sA"), VNull, VStr("sInt")}), b \in Opt("y", {VInt, VFloat}),
                                   c \in Opt("f", Inners)} \ {VObj(<<>>, <<>>)}
-ObjsSmall == {MkObj(a \o b \o c) : a \in Opt("x", {VInt, VStr("sA")}), b \in Opt("y", {VInt}),
-                                   c \in Opt("f", {VObj(<<"u">>, <<VInt>>), VObj(<<"u">>, <<VStr("sA")>>)})} \ {VObj(<<>>, <<>>)}
+ObjsSmall == {MkObj(a \o c) : a \in Opt("x", {VInt, VStr("sA")}),
+                              c \in Opt("f", {VObj(<<"u">>, <<VInt>>), VObj(<<"u">>, <<VStr("sA")>>)})} \ {VObj(<<>>, <<>>)}
 Objs == IF UniverseId = "full1" THEN ObjsFull ELSE ObjsSmall
-Shapes(o1, o2) == {VObj(<<"p", "q">>, <<o1, o2>>), VObj(<<"p", "q">>, <<o1, VList(<<o2, o1>>)>>)}
+Shapes(o1, o2) == IF UniverseId = "full1" THEN {VObj(<<"p", "q">>, <<o1, o2>>), VObj(<<"p", "q">>, <<o1, VList(<<o2, o1>>)>>)}
+                  ELSE {VObj(<<"p", "q">>, <<o1, o2>>)}
 SampleSet == UNION {Shapes(o1, o2) : o1, o2 \in Objs}
-MaxS == IF UniverseId = "full1" THEN 1 ELSE 2
+MaxS == IF UniverseId \in {"full1", "tiny1"} THEN 1 ELSE 2
 
 VARIABLES samples, pol, pc, meta, st, root, groups, queue, before
 vars == <<samples, pol, pc, meta, st, root, groups, queue, before>>
